@@ -183,6 +183,11 @@ func (g *Gen) genC13(n int) error {
 			g.st("case")
 			continue
 		}
+		if i%60 == 7 {
+			g.oddNamedThesCase()
+			g.st("case")
+			continue
+		}
 		depth := 1 + g.r.Intn(3)
 		g.genMergeCase(func(c *batchCfg) {
 			c.syn = true
@@ -896,6 +901,27 @@ func (g *Gen) genC20(n int) error {
 		g.emit("ref %s %s", []string{"close", "decref", "close"}[c], o)
 		g.emit("ref mapped %s", o)
 	}
+	// very many holders at once: the count has no ceiling below what its type holds
+	{
+		o := g.fresh("o")
+		g.emit("note case manyholders")
+		g.emit("open %s %s", o, f)
+		g.alias(o, s)
+		g.emit("ref addref %s n=70000", o)
+		g.emit("ref refs %s", o)
+		g.emit("ref decref %s n=65534", o)
+		g.emit("ref refs %s", o)
+		g.emit("ref mapped %s", o)
+		g.emit("q count %s", o)
+		g.emit("q stored %s 0 stop=*", o)
+		g.emit("ref decref %s n=4466", o)
+		g.emit("ref refs %s", o)
+		g.emit("ref mapped %s", o)
+		g.emit("q docid %s 0", o)
+		g.emit("ref close %s", o)
+		g.emit("ref mapped %s", o)
+		g.st("seq.manyholders")
+	}
 	// opened segments as inputs of a merge: the merge neither keeps nor drops a reference of its inputs
 	fcopy := g.fresh("f") // a second file with the same content (mappings are counted per path)
 	g.emit("persist %s %s", s, fcopy)
@@ -1011,4 +1037,56 @@ func (g *Gen) concurrentMergesOfMerged() {
 	}
 	g.emit("cfg chunkmode=%d", g.curMode)
 	g.st("concurrent-merges")
+}
+
+// oddNamedThesCase: thesauri whose names coincide with other things of the segment - the document-id
+// field `_id` (field number 0), an ordinary indexed field - built, merged with deletions, re-merged.
+func (g *Gen) oddNamedThesCase() {
+	g.setMode()
+	var segs []string
+	for k := 0; k < 2; k++ {
+		b := &BatchSpec{Name: g.fresh("b")}
+		for d := 0; d < 3; d++ {
+			id := []byte(fmt.Sprintf("%s-%d", b.Name, d))
+			doc := DocSpec{ID: id, Plain: false}
+			doc.Fields = append(doc.Fields, FieldSpec{Kind: "fld", Name: "_id", Typ: 't', Stored: true, Len: 1, Val: id, Toks: []TokSpec{{Term: id, Freq: 1}}})
+			doc.Fields = append(doc.Fields, FieldSpec{Kind: "fld", Name: "body", Typ: 't', Len: 1, Toks: []TokSpec{{Term: []byte("w"), Freq: 1}}})
+			doc.Fields = append(doc.Fields, FieldSpec{Kind: "syn", Name: "_id", Defs: []SynDef{{LHS: []byte("big"), RHS: [][]byte{[]byte("large"), []byte(fmt.Sprintf("huge%d", k))}}}})
+			if d == 1 {
+				doc.Fields = append(doc.Fields, FieldSpec{Kind: "syn", Name: "body", Defs: []SynDef{{LHS: []byte("w"), RHS: [][]byte{[]byte("word")}}}})
+			}
+			b.Docs = append(b.Docs, doc)
+		}
+		g.emitBatch(b)
+		s := g.fresh("s")
+		g.emit("build %s %s", s, b.Name)
+		g.newBuilt(s, b)
+		segs = append(segs, s)
+	}
+	ask := func(seg string) {
+		for _, th := range []string{"_id", "body", "nosuch"} {
+			g.emit("q thesterms %s %s probe=-", seg, th)
+		}
+		g.emit("q thes %s _id %s ex=nil", seg, hx([]byte("big")))
+		g.emit("q thes %s _id %s ex=0", seg, hx([]byte("big")))
+		g.emit("q thes %s body %s ex=nil", seg, hx([]byte("w")))
+		g.emit("q dict %s _id aut=all lo=* hi=* probe=-", seg)
+		g.emit("q dict %s body aut=all lo=* hi=* probe=-", seg)
+	}
+	for _, s := range segs {
+		ask(s)
+	}
+	f1 := g.fresh("f")
+	g.emit("merge %s segs=%s drops=0|nil", f1, strList(segs))
+	m1 := g.fresh("m")
+	g.emit("open %s %s", m1, f1)
+	ask(m1)
+	f2 := g.fresh("f")
+	g.emit("merge %s segs=%s drops=1", f2, m1)
+	m2 := g.fresh("m")
+	g.emit("open %s %s", m2, f2)
+	ask(m2)
+	g.emit("close %s", m2)
+	g.emit("close %s", m1)
+	g.st("thes.oddnames")
 }
